@@ -104,6 +104,9 @@ type tamper struct {
 	baseTuple string
 	applied   []string
 	cancel    bool
+	// undoSameImage reverts the leaf changes of kind "an integer replaced by another with the same float64
+	// image" (D15), to find out whether anything else that was applied changed the content at all
+	undoSameImage []func()
 }
 
 func (t *tamper) draw(n int, l string) int { return t.c.Sched.Draw(n, l) }
@@ -172,6 +175,7 @@ func mutateLeaf(t *tamper, l *gen.Node) string {
 			l.I++
 		}
 		if float64(old) == float64(l.I) {
+			t.undoSameImage = append(t.undoSameImage, func() { l.I = old })
 			return ".integer-to-another-with-the-same-float64-image"
 		}
 	case gen.KFloat:
@@ -943,7 +947,22 @@ func runC01(c *engine.Ctx) {
 		anyNonTrivial = true
 		fpKinds = append(fpKinds, strings.Join(tm.applied, "+"))
 		if v.verifyErr == nil {
-			c.Fail("C01.accepted-tampered", strings.Join(tm.applied, "+"), "Verify returned nil for a job tampered by %v (cancelled ctx=%v) under key kind %s\nsigned (as uploaded): %s\n  env=%v repo=%q\npresented: %s\n  env=%v repo=%q\ndocument (%s):\n%s",
+			cls := strings.Join(tm.applied, "+")
+			if len(tm.undoSameImage) > 0 && recordSame && envSame && tj.repoURL == j.repoURL && tm.keySet == kp.pub {
+				// was the same-float64-image integer the ONLY thing that changed? Put it back and look again.
+				for _, undo := range tm.undoSameImage {
+					undo()
+				}
+				back := new(pipeline.CommandStep)
+				if back.UnmarshalJSON(tj.step.ToJSON(nil)) == nil && semanticTuple(back) == signedTuple {
+					for _, a := range tm.applied {
+						if strings.HasSuffix(a, ".integer-to-another-with-the-same-float64-image") {
+							cls = a // the other faults of this job changed nothing the signature covers
+						}
+					}
+				}
+			}
+			c.Fail("C01.accepted-tampered", cls, "Verify returned nil for a job tampered by %v (cancelled ctx=%v) under key kind %s\nsigned (as uploaded): %s\n  env=%v repo=%q\npresented: %s\n  env=%v repo=%q\ndocument (%s):\n%s",
 				tm.applied, tm.cancel, kp.kind, truncate(string(pristine), 900), j.env, j.repoURL, truncate(string(wire), 900), tj.env, tj.repoURL, format, truncate(string(src), 900))
 		}
 		c.Probe("tampered_jobs_rejected")
